@@ -21,6 +21,7 @@ meta = json.load(open(os.path.join(SRC, "meta.json")))
 for i, e in enumerate(meta, 1):
     patch = os.path.join(SRC, e["patch"])
     demo = e["demo_cmd"].replace(f"/tmp/seed/{pid}/repo", WT).replace("../demo", f"{SRC}/demo")
+    demo = re.sub(r"git apply [^&;]*(&&|;)", "", demo)   # the tool applies / removes the change itself
     clean()
     rc0, out0 = sh(demo, WT)
     if re.search(r"^(FAIL|--- FAIL|panic:|fatal error)", out0, re.M): rc0 = rc0 or 1
